@@ -8,9 +8,10 @@ V = os.path.dirname(os.path.dirname(os.path.abspath(__file__)))
 SRC = "/tmp/seed"
 CONF = "/tmp/seedconfirm"
 det = json.load(open(os.path.join(V, "seeded", "detection.json"))) if os.path.exists(os.path.join(V, "seeded", "detection.json")) else {}
-for out in sorted(glob.glob(os.path.join(SRC, "C??.out", "[ab]"))):
+outs = [(o, os.path.basename(o)) for o in sorted(glob.glob(os.path.join(SRC, "C??.out", "[ab]")))]
+outs += [(o, {"a": "c", "b": "d"}[os.path.basename(o)]) for o in sorted(glob.glob(os.path.join("/tmp/seed2", "C??.out", "[ab]")))]  # second, diversified round
+for out, x in outs:
     pid = os.path.basename(os.path.dirname(out))[:3]
-    x = os.path.basename(out)
     sid = pid + x
     dst = os.path.join(V, "seeded", sid)
     os.makedirs(dst, exist_ok=True)
@@ -36,6 +37,7 @@ for out in sorted(glob.glob(os.path.join(SRC, "C??.out", "[ab]"))):
         "summary": (first[0][:400] if first else ""),
         "needs_to_manifest": "see notes.md (written by the author of the change, who saw only the property text)",
         "confirmed_by_me": conf,
+        "round": 2 if x in "cd" else 1,
         "confirmation_procedure": "scratch worktree of /repo HEAD outside /repo and /verif: demo on the original (must exit 0), git apply patch.diff, demo (must exit != 0), full pinned test suite (51 tests must pass; a single failure of an unseeded statistical t-test was re-run in isolation), worktree removed",
         "caught_by": det.get(sid, {}),
     }
